@@ -4,7 +4,7 @@ from itertools import accumulate
 
 from hypothesis import strategies as st
 
-from .. import gen, runner, sut
+from .. import common, gen, runner, sut
 from .. import model as M
 
 ID = "C10"
@@ -131,6 +131,21 @@ def judge(case):
     if res[0] != "ok":
         return {"viol": ["does not compile: %s %s" % res[1:]], "tags": tags}
     routed = res[1]
+    # the same routed program rendered a SECOND time by one code generator (and again from the same parsed AST): all branches
+    # must still see the position the evaluator sees
+    try:
+        routed_again, same = common.rendered_again(M.render(routed_prog), "routed")
+        for u in units[:12]:
+            for vi in range(len(fam)):
+                a, b = sut.call(routed, {"uid": u, "route": vi}), sut.call(routed_again, {"uid": u, "route": vi})
+                if a != b:
+                    viol.append("unit %r, branch %d: the evaluator gives %r, the function from the generator's second generate() gives %r | %s"
+                                % (u, vi, a[1:], b[1:], M.render(routed_prog)[:160]))
+                    break
+            if viol:
+                break
+    except Exception as e:
+        viol.append("rendering the routed program a second time failed: %s: %s" % (type(e).__name__, e))
     # (d) one long-lived evaluator pushed through the whole family by recompile(), labels that look like URLs ("//" inside a
     # string) - it must agree with the stand-alone programs at every step
     live = None
@@ -149,7 +164,11 @@ def judge(case):
                         live.recompile(text.replace(" weighted ", " weighted , ", 1))
                     except Exception:
                         pass
-                live.recompile(text)
+                if vi % 3 == 2:
+                    live.recompile(text)
+                else:
+                    common.recycled_recompile(live, prev_text, text)  # rendered anew on every tick: the object id is recycled
+            prev_text = text
         except Exception as e:
             viol.append("live evaluator: recompile to %r raised %s: %s" % (ws, type(e).__name__, e))
             break
